@@ -12,7 +12,7 @@ import ast
 import copy
 
 from rsa.model import AnchorError, Undecided, call_name, dotted_name, unparse, walk_no_nested
-from rsa.terms import canon, inline_locals, negated
+from rsa.terms import canon, inline_locals, negated, single_defs
 from rsa.util import find_calls, require
 
 METHODS = "resonaate.physics.transforms.methods"
@@ -868,6 +868,142 @@ def rule_r6(chk, p, t):
         r.guard(fn.qualname, one)
 
 
+def rule_r7(chk, p, t, rid="C04.R7"):
+    r = chk.rule(
+        rid,
+        "time decompositions conserve their input",
+        2,
+        "terrestrial time is UTC + dAT + 32.184 s re-expressed as (hour, minute, second) of the *same* calendar day and "
+        "turned into a Julian date; in the last ~69 s of a UTC day it exceeds 24 h and the carry into the day number "
+        "must survive: seconds2hms satisfies 3600 h + 60 m + s == total seconds, and the fraction-carry block of "
+        "getJulianDate leaves day + fraction unchanged - decided symbolically (straight-line substitution, polynomial "
+        "expansion with floor / remainder left uninterpreted)",
+        "rounding of the floating-point operations",
+    )
+    from rsa.terms import NotEvaluable, expand_poly, sym_exec
+
+    s2h = p.func("resonaate.physics.time.conversions.seconds2hms")
+
+    def one():
+        body = [b for b in s2h.node.body if not isinstance(b, ast.Return)]
+        rets = [b for b in s2h.node.body if isinstance(b, ast.Return)]
+        require(len(rets) == 1 and isinstance(rets[0].value, ast.Tuple) and len(rets[0].value.elts) == 3, "seconds2hms does not return one (hour, minute, second) triple", s2h.node)
+        try:
+            env = sym_exec(body)
+            import copy
+
+            class S(ast.NodeTransformer):
+                def visit_Name(self, n):
+                    return copy.deepcopy(env[n.id]) if n.id in env else n
+
+            h, m, sec = [S().visit(copy.deepcopy(x)) for x in rets[0].value.elts]
+            total = ast.BinOp(left=ast.BinOp(left=ast.BinOp(left=ast.Constant(3600), op=ast.Mult(), right=h), op=ast.Add(), right=ast.BinOp(left=ast.Constant(60), op=ast.Mult(), right=m)), op=ast.Add(), right=sec)
+            ok = expand_poly(total) == expand_poly(ast.Name(id=s2h.params[0], ctx=ast.Load()))
+        except NotEvaluable as ex:
+            raise Undecided(f"seconds2hms is not straight-line arithmetic ({ex})", s2h.node) from None
+        if ok:
+            r.ok(s2h.qualname, "3600 hour + 60 minute + second == total_seconds identically", s2h.loc())
+        else:
+            r.violation(s2h.qualname, "seconds-not-conserved", f"seconds2hms: 3600 hour + 60 minute + second is not its input `{s2h.params[0]}` (hour = `{unparse(h)[:60]}`): a value beyond 24 h - terrestrial time in the last 69 s of a UTC day - loses its day carry, so precession / nutation are evaluated a day early and the Earth-fixed frame jumps by ~6e-7 rad until midnight", s2h.loc())
+
+    r.guard(s2h.qualname, one)
+    gj = p.func("resonaate.physics.time.stardate.JulianDate.getJulianDate")
+
+    def two():
+        rets = [n for n in walk_no_nested(gj.node) if isinstance(n, ast.Return) and n.value is not None]
+        require(len(rets) == 1 and isinstance(rets[0].value, ast.Call) and rets[0].value.args, "getJulianDate: single `return cls(day + fraction)` expected", gj.node)
+        total = rets[0].value.args[0]
+        names = sorted({n.id for n in ast.walk(total) if isinstance(n, ast.Name)})
+        n_blocks = 0
+        for i in [n for n in walk_no_nested(gj.node) if isinstance(n, ast.If)]:
+            stored = {x.id for b in i.body for x in ast.walk(b) if isinstance(x, ast.Name) and isinstance(x.ctx, ast.Store)}
+            if not (stored & set(names)) or any(isinstance(b, ast.Raise) for b in i.body):
+                continue
+            n_blocks += 1
+            try:
+                env = sym_exec(i.body)
+            except NotEvaluable as ex:
+                raise Undecided(f"carry block is not straight-line arithmetic ({ex})", i) from None
+            import copy
+
+            class S(ast.NodeTransformer):
+                def visit_Name(self, n):
+                    return copy.deepcopy(env[n.id]) if n.id in env else n
+
+            after = S().visit(copy.deepcopy(total))
+            cons = f"{gj.qualname}:carry"
+            if expand_poly(after) == expand_poly(total):
+                r.ok(cons, f"`{unparse(total)}` is unchanged by the block under `{unparse(i.test)}`", gj.loc(i))
+            else:
+                r.violation(cons, f"carry-not-conserved:{unparse(after)[:60]}", f"the block under `{unparse(i.test)}` turns `{unparse(total)}` into `{unparse(after)[:100]}`: whole days in the fraction are dropped instead of carried (terrestrial time in the last 69 s of a UTC day comes out one day early)", gj.loc(i))
+        if n_blocks == 0:
+            r.trivial(gj.qualname + ":carry", "no block rewrites the day / fraction pair")
+
+    r.guard(gj.qualname, two)
+    # the consumer relies on both
+    u2t = p.func("resonaate.physics.time.conversions.utc2TerrestrialTime")
+
+    def three():
+        defs = single_defs(u2t.node)
+        jd = [c for c in ast.walk(u2t.node) if isinstance(c, ast.Call) and call_name(c) == "getJulianDate"]
+        require(len(jd) == 1 and len(jd[0].args) == 6, "utc2TerrestrialTime: one getJulianDate(y, m, d, h, m, s) expected", u2t.node)
+        tt = inline_locals(u2t, ast.parse("tt_secs", mode="eval").body) if "tt_secs" in defs else None
+        want = expand_poly(ast.parse(f"{u2t.params[3]} * 3600 + {u2t.params[4]} * 60 + {u2t.params[5]} + {u2t.params[6]} + 32.184", mode="eval").body)
+        ok = tt is not None and expand_poly(tt) == want
+        unp = [n for n in walk_no_nested(u2t.node) if isinstance(n, ast.Assign) and isinstance(n.targets[0], ast.Tuple) and isinstance(n.value, ast.Call) and call_name(n.value) == "seconds2hms"]
+        arg_ok = len(unp) == 1 and [unparse(x) for x in unp[0].targets[0].elts] == [unparse(a) for a in jd[0].args[3:]] and len(unp[0].value.args) == 1 and expand_poly(inline_locals(u2t, unp[0].value.args[0])) == want
+        days_ok = [unparse(a) for a in jd[0].args[:3]] == list(u2t.params[:3])
+        if ok and arg_ok and days_ok:
+            r.ok(u2t.qualname, "TT = UTC + dAT + 32.184 s, split by seconds2hms and dated on the same calendar day", u2t.loc())
+        else:
+            r.violation(u2t.qualname, f"terrestrial-time:{ok}:{arg_ok}:{days_ok}", "utc2TerrestrialTime no longer dates (UTC seconds of day + dAT + 32.184 s), split by seconds2hms, on the given calendar day", u2t.loc())
+
+    r.guard(u2t.qualname, three)
+
+
+def rule_r8(chk, p, t, rid="C04.R8"):
+    r = chk.rule(
+        rid,
+        "geodetic to Earth-fixed follows the reference-ellipsoid definition",
+        1,
+        "lla2ecef returns ((N + h) cos(lat) cos(lon), (N + h) cos(lat) sin(lon), (N (1 - e^2) + h) sin(lat), 0, 0, 0) with "
+        "N = R / sqrt(1 - e^2 sin^2(lat)) (Vallado 3-7), compared after inlining every local and full polynomial "
+        "expansion: sign-carrying factors (sin(lat) for the hemisphere) may not be replaced by even functions of them",
+        "the numerical values",
+    )
+    from rsa.terms import expand_poly
+
+    fn = p.func("resonaate.physics.transforms.methods.lla2ecef")
+
+    def one():
+        rets = [n for n in walk_no_nested(fn.node) if isinstance(n, ast.Return) and n.value is not None]
+        require(len(rets) == 1, "lla2ecef: single return expected", fn.node)
+        e = inline_locals(fn, rets[0].value)
+        arr = e.args[0] if isinstance(e, ast.Call) and call_name(e) in ("array", "asarray") and e.args else e
+        require(isinstance(arr, (ast.List, ast.Tuple)) and len(arr.elts) == 6, "lla2ecef does not return a 6-element array literal", rets[0])
+        x = fn.params[0]
+        lat, lon, alt = f"{x}[0]", f"{x}[1]", f"{x}[2]"
+        N = f"(Earth.radius / sqrt(1 - Earth.eccentricity ** 2 * sin({lat}) ** 2))"
+        want = [
+            f"({N} + {alt}) * cos({lat}) * cos({lon})",
+            f"({N} + {alt}) * cos({lat}) * sin({lon})",
+            f"((1 - Earth.eccentricity ** 2) * {N} + {alt}) * sin({lat})",
+            "0",
+            "0",
+            "0",
+        ]
+        bad = []
+        for i, (got, w) in enumerate(zip(arr.elts, want)):
+            if expand_poly(got) != expand_poly(ast.parse(w, mode="eval").body):
+                bad.append(f"component {i} = `{unparse(got)[:90]}` (expected `{w[:90]}`)")
+        if bad:
+            r.violation(fn.qualname, "lla2ecef:" + ";".join(b[:40] for b in bad), "lla2ecef deviates from the reference-ellipsoid definition: " + "; ".join(bad), fn.loc(rets[0]))
+        else:
+            r.ok(fn.qualname, "Vallado 3-7 with N = R / sqrt(1 - e^2 sin^2 lat)", fn.loc(rets[0]), obligations=6)
+
+    r.guard(fn.qualname, one)
+
+
 def run(chk, p, t):
     chk.explanation = (
         "Static decision of structural necessary conditions of C04 by normal forms of rotation chains and matrix "
@@ -879,7 +1015,7 @@ def run(chk, p, t):
         "geodetic closed form."
     )
     chk.assumptions += ["numpy matmul / dot / multi_dot are matrix products; .T is the transpose", "passive rotation convention of Vallado eq. 3-15 (cited by the module)"]
-    for fn in (rule_r1, rule_r2, rule_r3, rule_r4, rule_r5, rule_r6):
+    for fn in (rule_r1, rule_r2, rule_r3, rule_r4, rule_r5, rule_r6, rule_r7, rule_r8):
         rid = "C04.R" + fn.__name__[-1]
         if not chk.wants(rid):
             continue
